@@ -31,7 +31,16 @@ LEVEL_TEXT = ("theorems (linearity given a linear filter, factor decomposition w
               "model text run on Float agrees with pyrex on every sampled input")
 LEVEL_NOTE = ("the frequency filter is an abstract linear operator in the theorems (linearity of "
               "Signal.filter_frequencies is property C05; the zero-padded DFT filter the driver runs is proved linear, "
-              "C08_dft_filter_linear); gains are real-valued; floating-point rounding is not "
+              "C08_dft_filter_linear); gains are real-valued in the response theorems and in the correspondence run; complex "
+              "gains are a supported input of the code: the search generates them (plain Signal inputs must give the "
+              "complex product), function-backed inputs then keep only the real part = known finding K21, negation proved "
+              "as C08_complex_gain_function_backed_drops_imaginary; hypothesis audit: a zero direction is covered by "
+              "C08_zero_direction; non-orthonormal stored axes (constructor tolerance 1e-8, plain attribute assignment) are "
+              "covered by the model and the correspondence run, the dipole theorems assume the exact frame that "
+              "C08_dipole_frame_orthonormal proves for every DipoleAntenna; outside the claim and not generated: an empty "
+              "component sequence (receive([]) stores the integer 0), zero axis / orientation vectors (Antenna accepts them "
+              "silently, DipoleAntenna never returns), float32 vectors (pyrex normalises in float32); floating-point "
+              "rounding is not "
               "modelled (tolerance run: 1e-9 relative, FFT-based values 1e-9 of the peak); scipy.signal.butter / freqs "
               "are modelled by the rational function they define; constants (speed of light, isclose tolerance 1e-8) "
               "are hard-coded in Antenna.body and a changed constant is noticed by the correspondence run")
@@ -84,7 +93,7 @@ def lowpass(f0):
     return resp
 
 
-def indep_filter(vals, dt, fn, force_real):
+def indep_filter(vals, dt, fn, force_real, keep_complex=False):
     """Signal.filter_frequencies recomputed with numpy alone: zero-pad to 2N, multiply the spectrum by the response
     (force_real: response at |f|, complex-conjugated at negative frequencies), inverse transform, real part, N samples"""
     n = len(vals)
@@ -95,7 +104,8 @@ def indep_filter(vals, dt, fn, force_real):
     else:
         h = np.array(fn(freqs), dtype=complex)
     spec_ = np.fft.fft(np.concatenate((np.array(vals, dtype=float), np.zeros(n))))
-    return np.real(np.fft.ifft(h * spec_)[:n])
+    out = np.fft.ifft(h * spec_)[:n]
+    return out if keep_complex else np.real(out)
 
 
 def independent_response(spec):
@@ -164,6 +174,11 @@ def build(spec):
                                                  + c[5] * np.vdot(np.cross(inner.z_axis, inner.x_axis), p))
         if spec.get("fresp") is not None:
             inner.frequency_response = lowpass(spec["fresp"])
+        if spec.get("cphase") is not None:      # complex-valued gains: the real gains times a constant phase factor
+            ad, ap = spec["cphase"]
+            dg0, pg0 = inner.directional_gain, inner.polarization_gain
+            inner.directional_gain = lambda theta, phi: dg0(theta=theta, phi=phi) * np.exp(1j * ad)
+            inner.polarization_gain = lambda p: pg0(p) * np.exp(1j * ap)
     outer = AntennaSystem(inner) if spec["kind"].startswith("sys") else inner
     for rec in spec.get("hist", []):     # a never-used object brought to the current parameters
         apply_record(outer, inner, rec)
@@ -687,9 +702,15 @@ def impl_respond(outer, sd, vt, direction, pol, force_real):
     return [float(v) for v in np.real(out.values)]
 
 
+EXCLUDED_REGIONS = ["empty component sequence in receive (no received signal; the model rejects it)",
+                    "zero axis / orientation vectors (not an orientation)", "float32 vectors (float32-accurate normalisation)",
+                    "complex gains in the correspondence run (search only; K21)"]
+
+
 def correspondence(run):
     import pyrex  # noqa: F401
     from pyrex.signals import Signal
+    run.extra["excluded_regions"] = EXCLUDED_REGIONS
     rng = run.rng
     reqs, checks = [], []     # checks: (desc, fn(reply) -> None | "mismatch text")
     kinds = ["unit", "custom", "custom", "dip", "dip", "sysdip", "syscustom"]
@@ -1004,6 +1025,8 @@ def oracle(kind, inp):
             return oracle_reuse(inp)
         if kind == "zerogain":
             return oracle_zerogain(inp)
+        if kind == "cgain":
+            return oracle_cgain(inp)
         return oracle_plain(kind, inp)
     except Exception as e:     # noqa: BLE001
         import traceback
@@ -1080,6 +1103,48 @@ def oracle_reorient(inp):
                     "response changes when the axes (through set_orientation on the same object), the direction and the "
                     "polarisation are rotated together")
     return None
+
+
+def oracle_cgain(inp):
+    """complex-valued gains (the docstrings advertise them): the response is filtered x gain product x efficiency
+    (/ factor), a COMPLEX signal.  Plain Signal inputs must give exactly that.  Function-backed inputs lose the
+    imaginary part (known finding K21): recognised only when the result is real and equals Re(prescribed)."""
+    from pyrex.signals import Signal
+    spec, desc = inp["spec"], inp["input"]
+    outer, inner = build(spec)
+    twin = make_input(desc)
+    vals0 = np.real(np.array(twin.values))
+    times = np.array(twin.times)
+    sig = make_input(desc) if inp["as"] == "function" else Signal(times, vals0.copy(), vtype(desc["vt"]))
+    d_ = None if inp["direction"] is None else np.array(inp["direction"])
+    p_ = None if inp["polarization"] is None else np.array(inp["polarization"])
+    fr = bool(inp["force_real"])
+    before = len(inner.signals)
+    if inp["op"] == "respond":
+        res = outer.apply_response(sig, direction=d_, polarization=p_, force_real=fr)
+    else:
+        outer.receive(sig, direction=d_, polarization=p_, force_real=fr)
+        if len(inner.signals) != before + 1:
+            return (len(inner.signals) - before, 1, "receive did not store exactly one signal")
+        res = inner.signals[-1]
+    got = np.asarray(res.values)
+    ad, ap = spec["cphase"]
+    g = expected_gain_factor(spec, current_state(spec), inp["direction"], inp["polarization"], desc["vt"]) \
+        * np.exp(1j * ((ad if d_ is not None else 0.0) + (ap if p_ is not None else 0.0)))
+    fc = indep_filter(vals0, desc["dt"], independent_response(spec), fr, keep_complex=True)
+    filtered = np.real(fc)          # what Signal.filter_frequencies keeps of a real signal
+    want = filtered * g
+    sc = float(np.max(np.abs(filtered))) * abs(g) + 1e-300
+    if len(got) == len(want) and np.max(np.abs(got - want)) <= 1e-8 * sc:
+        return None
+    what = "with complex gains the %s of a %s input is not filtered signal x gain product x efficiency (/ factor)" % (
+        inp["op"], "function-backed (%s)" % desc["kind"] if inp["as"] == "function" else "plain Signal")
+    if (inp["as"] == "function" and len(got) == len(want) and not np.iscomplexobj(got)
+            and abs(g.imag) > 0 and np.max(np.abs(got - np.real(fc * g))) <= 1e-8 * sc):
+        # the factor was multiplied in before the filter and the real part taken afterwards
+        return ([complex(x) for x in got[:3]], [complex(x) for x in want[:3]], what + ": the imaginary part is dropped", "K21")
+    i = int(np.argmax(np.abs(got - want))) if len(got) == len(want) else -1
+    return ([i, complex(got[i])], [i, complex(want[i])], what)
 
 
 def oracle_zerogain(inp):
@@ -1327,6 +1392,14 @@ def gen_input(run, kind):
     elif kind == "zerogain":
         spec, use, way = zero_gain_case(run)
         return {"spec": spec, "use": use, "way": way}
+    elif kind == "cgain":
+        sp = rand_spec(run, rng.choice(["custom", "custom", "syscustom", "unit"]))
+        sp["fresp"] = rng.choice([None, rng.uniform(1e8, 8e8)])      # Hermitian responses: filtered stays real
+        sp["cphase"] = [rng.uniform(0.2, 2.9), rng.choice([0.0, rng.uniform(0.2, 2.9)])]
+        desc = rand_input_desc(run, buffers_ok=False)
+        return {"spec": sp, "input": desc, "as": rng.choice(["sampled", "function"]), "op": rng.choice(["respond", "receive1"]),
+                "direction": gvec(rng), "polarization": None if rng.random() < 0.3 else gvec(rng),
+                "force_real": rng.random() < 0.7}
     elif kind == "reuse":
         ants = [rand_spec(run, rng.choice(["dip", "dip", "sysdip", "custom"])) for _ in range(rng.choice([1, 2, 3]))]
         for sp in ants:
@@ -1358,7 +1431,7 @@ def gen_input(run, kind):
     return inp
 
 
-ORACLES = ["rotate", "linear", "factor", "rejects", "receive", "frame", "history", "history", "reorient", "reuse", "reuse", "zerogain", "zerogain"]
+ORACLES = ["rotate", "linear", "factor", "rejects", "receive", "frame", "history", "history", "reorient", "reuse", "reuse", "zerogain", "zerogain", "cgain"]
 
 
 def search(run, deep):
@@ -1371,13 +1444,48 @@ def search(run, deep):
             run.count("oracle_" + kind)
             res = oracle(kind, inp)
             if res is not None:
-                run.fail_input(kind, inp, observed=res[0], expected=res[1], what=res[2])
+                if len(res) > 3 and res[3]:
+                    run.count("oracle_%s_inputs" % res[3])
+                run.fail_input(kind, inp, observed=res[0], expected=res[1], what=res[2],
+                               finding_key=res[3] if len(res) > 3 else None)
                 if len(run.violations) >= 5:
                     return
 
 
+def known_probes(run):
+    """K21: complex gain product x function-backed input keeps only the real part (gain 0.6+0.8j)"""
+    import pyrex  # noqa: F401
+    from pyrex.antenna import Antenna
+    from pyrex.signals import Signal, FunctionSignal
+    t = np.arange(16) * 1e-9
+    fn = lambda x: np.cos(2e9 * x) * np.exp(-((x - 8e-9) / 3e-9) ** 2)   # noqa: E731
+    run.case(("known", "K21"))
+    out = {}
+    for name, sig in (("sampled", Signal(t, fn(t), Signal.Type.voltage)), ("function", FunctionSignal(t, fn, Signal.Type.voltage))):
+        a = Antenna([0, 0, 0], noisy=False)
+        a.directional_gain = lambda theta, phi: 0.6 + 0.8j
+        out[name] = np.asarray(a.apply_response(sig, direction=[1, 2, 3]).values)
+    want = fn(t) * (0.6 + 0.8j)
+    sc = 1e-9 * float(np.max(np.abs(want)))
+    if np.max(np.abs(out["sampled"] - want)) > sc:
+        run.fail_input("cgain-probe", {"probe": "K21", "as": "sampled"}, observed=[complex(x) for x in out["sampled"][7:9]],
+                       expected=[complex(x) for x in want[7:9]],
+                       what="a plain Signal with a complex gain is not filtered x gain")
+    if np.max(np.abs(out["function"] - want)) > sc:
+        if not np.iscomplexobj(out["function"]) and np.max(np.abs(out["function"] - np.real(want))) <= sc:
+            run.known_finding("K21")
+        else:
+            run.fail_input("cgain-probe", {"probe": "K21", "as": "function"}, observed=[complex(x) for x in out["function"][7:9]],
+                           expected=[complex(x) for x in want[7:9]],
+                           what="a function-backed signal with a complex gain is neither filtered x gain nor its real part")
+
+
 def replay(run, data):
     import pyrex  # noqa: F401
+    if data["kind"] == "cgain-probe":
+        known_probes(run)
+        return
     res = oracle(data["kind"], data["input"])
     if res is not None:
-        run.fail_input(data["kind"], data["input"], observed=res[0], expected=res[1], what=res[2])
+        run.fail_input(data["kind"], data["input"], observed=res[0], expected=res[1], what=res[2],
+                       finding_key=res[3] if len(res) > 3 else None)
